@@ -17,7 +17,7 @@ from ..astutil import dotted, src, walk_local, local_assignments
 from ..callgraph import CallGraph
 from ..must import analyze
 from ..report import AnalysisError
-from .common import MUTATING_METHODS, attr_writes, stmt_writes, problem_receivers, problem_model
+from .common import MUTATING_METHODS, attr_writes, stmt_writes, problem_receivers, problem_model, cache_inplace_mutations
 
 def check(prog, rep):
     pm = problem_model(prog, rep)
@@ -310,6 +310,12 @@ def check(prog, rep):
                f"lazy entry {src(n.targets[0])} is stored in the object currently referenced by Problem.{attr} (replaced wholesale on invalidation)"
                if ok else f"lazy entry {src(n.targets[0])} is stored into an object that is not the published Problem.{attr} ({'; '.join(why)})",
                loc=f"{fi.module.rel}:{n.lineno}")
+
+    # ---- R13.6 cached artefacts are never modified in place by the code that consumes them
+    muts = cache_inplace_mutations(prog, pm)
+    for f, n, what in muts:
+        rep.ob("R13.6", f.qual.split(":")[1], False, what + ": the next solve of the same unmodified problem starts from the altered artefact (results depend on how many solves came before)", loc=f"{f.module.rel}:{n.lineno}", detail=f"in-place:{src(n)[:30]}")
+    rep.ob("R13.6", "package", not muts, "no consumer modifies an object reachable from a Problem cache in place", detail="cache-objects-read-only", loc=None)
 
     # ---- R13.5 mutable model fields are not leaked
     mutable_model = {a for a in model_attrs if isinstance(init_attrs.get(a), (ast.List, ast.Dict, ast.Set))}
